@@ -949,6 +949,7 @@ Proof.
   - rewrite finish_ai. cbn [res_state]. apply disable_inv; assumption.
   - rewrite finish_ai. apply initialize_inv; assumption.
   - destruct (ext_attr sh); cbn [ai]; [apply Inv_set_registered|]; exact HI.
+  - exact HI.
 Qed.
 
 Lemma run_inv : forall b ops sh, no_advice b -> ShInv b sh -> ShInv b (run E ops sh).
@@ -1187,6 +1188,7 @@ Proof.
   - cbn. apply disable_registered.
   - apply initialize_registered.
   - destruct (ext_attr sh); reflexivity.
+  - reflexivity.
 Qed.
 
 (* no enable / disable / load / unload / reload / initialize ever forgets a registered name *)
